@@ -42,37 +42,39 @@ def split_colons(line):
     return parts
 
 
-def restructure(text, r):
-    """Statement-level rewrites on plain text: split 'a : b' onto lines, join consecutive simple statements, add/remove LET."""
+def restructure(text, r, mode='random'):
+    """Statement-level rewrites on plain text: split 'a : b' onto lines, join consecutive simple statements, add/remove LET.
+    mode: 'split' / 'join' / 'let' apply that one rewrite wherever it is possible, 'random' mixes them."""
+    p_split, p_let, p_join = {'random': (0.6, 0.3, 0.3), 'split': (1.0, 0.0, 0.0), 'join': (0.0, 0.0, 1.0), 'let': (0.0, 1.0, 0.0)}[mode]
     lines = text.split('\n')
     out = []
     for line in lines:
         parts = split_colons(line)
-        if parts is not None and r.random() < 0.6:
+        if parts is not None and r.random() < p_split:
             out.extend(p_.strip() for p_ in parts)
         else:
             out.append(line)
     lines, out = out, []
     for line in lines:
         m = _SIMPLE.match(line) if (':' not in line and "'" not in line and not _KEYWORD_START.match(line)) else None
-        if m and m.group(2) and r.random() < 0.3:
+        if m and m.group(2) and r.random() < p_let:
             if m.group(1):
                 line = re.sub(r'^(\s*)LET\s+', r'\1', line, flags=re.I)
             else:
                 line = re.sub(r'^(\s*)', r'\1LET ', line)
         prev = out[-1] if out else None
         if (m and prev is not None and ':' not in prev and "'" not in prev and _SIMPLE.match(prev) and not _KEYWORD_START.match(prev)
-                and not prev.rstrip().endswith((';', ',')) and r.random() < 0.3):
+                and not prev.rstrip().endswith((';', ',')) and r.random() < p_join):
             out[-1] = prev.rstrip() + ' : ' + line.strip()
         else:
             out.append(line)
     return '\n'.join(out)
 
 
-def rewrite_text(text, r):
+def rewrite_text(text, r, mode='random'):
     """Conservative neutral rewrite of arbitrary source text (used for repo snippets)."""
     out = []
-    text = restructure(text, r)
+    text = restructure(text, r, mode)
     for line in text.split('\n'):
         md = re.fullmatch(r'(\s*(?:\w+:\s*|\d+\s+)?)(data)(\s+)([^"\':]*)', line, re.I)
         if md:
@@ -194,7 +196,7 @@ def gen_cases(tier, seed):
     n = 70 if tier == 'quick' else 900
     cs = gen_cases_corpus(n, seed, opts={'max_stmts': 8}, with_repo=True)
     for i, c in enumerate(cs):
-        c['nvar'] = 3 if tier == 'quick' else 8
+        c['nvar'] = (4 if c['src'] in ('tour', 'shape') else 3) if tier == 'quick' else 8
         c['vseed'] = seed * 977 + i
     for t in range(len(LABEL_TEMPLATES)):
         cs.append({'kind': 'labels', 't': t, 'nvar': 8 if tier == 'quick' else 60, 'vseed': seed * 31 + t})
@@ -214,7 +216,8 @@ def run_case(case):
             vt, _ = render.render(meta['prog'], st)
             variants.append((vt, rules))
         else:
-            variants.append((rewrite_text(text, r), ['text-case', 'comments', 'blank', 'text-split-join', 'text-let']))
+            mode = ['split', 'join', 'let', 'random'][k % 4] if case['src'] in ('tour', 'shape') else 'random'
+            variants.append((rewrite_text(text, r, mode), ['text-case', 'comments', 'blank', 'text-split-join', 'text-let']))
     st = {'variants_compared': 0, 'variants_textually_different': 0, 'sections_equal': 0,
           'sections_differ_behaviour_equal': 0, 'rejected_both': 0, 'rules_used': []}
     viol = []
